@@ -110,6 +110,14 @@ CHECKS["C18"] = dict(
    note="Lattice: integer control points/boundary values in -3..3. Degrees > 7, numeric (non-symbolic) T not covered. Built by a sub-task; 9 code mutations detected.",
 )
 
+CHECKS["C14"] = dict(
+   technique="TLA+ spec Setpoints.tla (exact integer geometry of the thrust-vector frame, two independent derivations of the roll/pitch rates of the thrust axis along polynomial trajectories, Euler-triple law) model-checked by TLC; every state replayed into position_control, se23_position_control, f_ref, mr_ref_traj, input_auto_level, eulerB321_to_quat",
+   category="model_checking",
+   text="TLC proves on every state orthogonality, right-handedness, z_B parallel to T, y_B perpendicular to the heading vector, nx = ny nz, x_B on the heading side, exact force decomposition (unsaturated / saturated cells), and that the projected-derivative and angular-velocity derivations of p, q agree. Every state is replayed two-sided (1e-9) with the zero, tiny, parallel, saturated, horizontal-thrust and pitch-90 cells forced (coverage enforced as machinery failure): unit quaternion / orthonormal det +1 on every point, alignment, perpendicularity, thrust magnitude, p and q, Euler's equation on the returned rates and moment, agreement of the two flatness variants. Only p and q are asserted (yaw rate and angular acceleration are SPEC-DRIFT information).",
+   design_ref="6/C14",
+   note="Known finding (not repaired, see known_findings.jsonl): at exactly horizontal thrust both flatness references return r = inf and NaN moment. Saturated and SE_2(3)-rotation forces are evaluated in the harness from the saturation formula. Built by a sub-task; 10 code mutations detected.",
+)
+
 NOT_YET = {}
 
 ALL = [f"C{i:02d}" for i in range(1, 21)]
